@@ -45,6 +45,14 @@ CHECKS = {
    technique="deterministic simulation family S-A (measured delay vs the engine's own plan on virtual time, fault-free and with timing faults) plus a configuration sweep of the plan against an exact-arithmetic policy model",
    text="(i) for every simulated go on a non-terminal position the virtual go->bestmove delay is at least the plan and at most plan + scheduling slack (+ injected delay); (ii) the plan computed by the real parse_go_command + calculate_time_slice is checked against the statement's inequalities over a systematic sweep of clock/increment/movestogo/side values around the margin and sign boundaries, including independence from the opponent's clock.",
    note="(ii) is arithmetic over configurations (no schedule in it) and is included because the timed clause is only meaningful relative to the plan. Plans too long to simulate are checked in (ii) only."),
+ "C16": dict(level="exploration", design="5/C16",
+   technique="deterministic simulation family S-A: metamorphic session pairs (fresh engine vs after seeded earlier traffic with timing faults in the prefix), prefix-relation oracle over the recorded improvement sequences",
+   text="The same request (position X, go G) is simulated in a fresh engine and after 1-6 items of arbitrary earlier traffic (other games with timed/zero-slice go and possibly still-running search threads, ucinewgame, setoption, noise, shorter/longer versions of X's game, the request itself), optionally repeated; zero-slice replies must be identical, timed replies must agree on the common prefix of (depth, nodes, score, first PV move).",
+   note="Outputs are attributed to search threads by simulated thread id, so a late line of an old search is not mistaken for the probed one. Sampling over session histories."),
+ "C17": dict(level="fault_enumeration", design="5/C17",
+   technique="deterministic simulation family S-A with input-stream faults: noise/whitespace/unknown-token injection compared metamorphically against the clean script, and end-of-input injected at every command boundary of each script (enumerated) plus sampled mid-line offsets",
+   text="For each generated timing-free script: a noisy twin must produce the same transcript and probed state; stdin is closed at every command boundary (exhaustive per script) and at sampled mid-line offsets and the process must end (exit event) rather than keep reading; quit must be followed by exit and no output; every isready gets exactly one readyok.",
+   note="Exhaustive only over the EOF boundaries of the scripts drawn; scripts and noise placement are sampled. Noise is valid UTF-8 not beginning with a known command word."),
 }
 
 NOT_APPLICABLE = [
